@@ -13,7 +13,10 @@ Monitors on the implementation alone (no model involved):
       M2 every bytecode that passes the real check and whose disassembly assembles: asm(dis(asm(dis p))) == asm(dis p)
          (text equality dis(asm(dis p)) == dis(p) does NOT hold for non-canonical p — `arg 1` comes back as arg_1 — and is
          compared with the model's prediction instead);
-      M3 no PANIC."""
+      M3 every token program the assembler accepts disassembles to exactly as many instructions as the source has (a stray
+         byte, e.g. the zero left behind a too-wide branch placeholder, shows up as an extra `err`), and every varint branch
+         immediate of an assembled program is the minimal encoding of its displacement;
+      M4 no PANIC."""
 import os, re
 import common
 import vf
@@ -66,9 +69,17 @@ def monitor(op, res):
                 return "asm(dis(asm(src))) != asm(src): re-assembly gives %s" % str(d.get("re"))[:80]
             if d.get("fix") != "ok" or d.get("re2") != "same":
                 return "second round trip of an assembled program changes it (fix=%s re2=%s)" % (d.get("fix"), d.get("re2"))
+            if d.get("vmin") == "bad":
+                return "an assembled program has a varint branch immediate that is not the minimal encoding of its displacement"
         else:
             if "re" in d and d["re"] != "ERR" and d.get("re2") != "same":
                 return "asm(dis(asm(dis p))) != asm(dis p) for checked bytecode (re2=%s)" % d.get("re2")
+        return None
+    if kind == "prog" and "ops" in d:
+        k, _, n = d["ops"].partition("/")
+        if k != n:
+            return ("the assembled bytes disassemble to %s instructions, the source has %s: a byte of the program is not accounted "
+                    "for by a source instruction" % (k, n))
         return None
     if kind == "src":
         if d.get("asm") in (None, "ERR"):
@@ -147,7 +158,10 @@ def run(ctx, replay_ops=None):
     ctx.cov["rule"] = ("prog: (sweep) every op name of every version 0..LogicVersion in chunks of 24 statements with well-formed immediates, "
                        "every field of every field group at the newest version and at random versions; (directed) forward/backward/self "
                        "branches, switch and match over filler of every size around the 1/2/3-byte varint and the int16 limits, pairs and "
-                       "chains of mutually dependent varint branches, constant blocks in dead code; (random) 1..50 statements from the "
+                       "chains of mutually dependent varint branches, constant blocks in dead code; (cascades, v13+) forward and backward chains of k=2..6 varint "
+                       "branches with crossing spans whose true distances sit exactly on the 63|64 and 8191|8192 limits (each link shrinks only after the next one: "
+                       "k passes of findBranchSizes), padding swept -2..+2 around the limit per chain and per link, and random nests of 3..7 branches whose paddings "
+                       "are tuned with a reference fixpoint layout so that true distances land on / next to a limit; (random) 1..50 statements from the "
                        "version's table, branch-heavy half of the time, 1 in 5 with token-level damage. src: the package's `nonsense` corpus "
                        "at every version >= its own, the repository's .teal files, hand-written pseudo-op/macro/pragma sources, random token "
                        "programs re-spelled with int/byte/addr/method, comments, macros and ';'. code raw: instruction-wise random bytecode "
